@@ -35,7 +35,8 @@ def bounds(tier):
 def required_cells(tier):
     return ["excluded-file-defines-macro-others-test", "excluded-compiled-file", "excluded-header", "out-of-root-header",
             "out-of-root-header-defines-macro", "pattern:path", "pattern:dir", "pattern:ext", "pattern:anchored-dir", "pattern:case-variant", "all-files-excluded",
-            "cli:-x-vs-toml", "cli:-x-plus-toml", "cli:tree", "cli:cov"]
+            "cli:-x-vs-toml", "cli:-x-plus-toml", "cli:tree", "cli:cov", "compiled-file-outside-root",
+            "configuration-via-load_database", "code-base-of-two-directories"]
 
 
 def attribution(state, case, base):
@@ -97,7 +98,8 @@ def check_case(ctx, git, case, base, cls, do_cli=False):
     if not ok:
         acc.excluded("gcc-diagnostic", cls=cls)
         return
-    conf = forest.cbi_configuration(case, base)
+    # every other case obtains its configuration the way the front ends do (database files + load_database)
+    conf = forest.cbi_configuration_db(case, base) if case.get("via_db") else forest.cbi_configuration(case, base)
     inroot = [r for r in case["files"] if not r.startswith("@out/")]
     try:
         state0, cb0 = cbi.run_find(root, conf)
@@ -125,8 +127,10 @@ def check_case(ctx, git, case, base, cls, do_cli=False):
     if any(r in attr0 and any(attr0[r].values()) for r in out_hdrs):
         cells0.add("out-of-root-header")
         cells0.add("out-of-root-header-defines-macro")
-    if any(any(ps for ps in attr0.get(r, {}).values()) for r in out_hdrs):
-        pass
+    if any(tu["file"].startswith("@out/") for tu in case["tus"]):
+        cells0.add("compiled-file-outside-root")
+    if case.get("via_db"):
+        cells0.add("configuration-via-load_database")
     for pats, pcell in pattern_sets(rng, case, ctx.quick):
         cells = set(cells0) | {pcell}
         problems = list(base_problems)
@@ -185,6 +189,50 @@ def check_case(ctx, git, case, base, cls, do_cli=False):
                              "setmap_without_exclusion": {",".join(sorted(k)): v for k, v in sm0.items()}})
     if do_cli and not base_problems:
         cli_check(ctx, git, case, base, rng, inroot, attr0)
+    if not base_problems and len(case["files"]) % 3 == 0:
+        multi_directory_check(ctx, git, case, base, conf, attr0, inroot, realroot, cls)
+
+
+def multi_directory_check(ctx, git, case, base, conf, attr0, inroot, realroot, cls):
+    """The code base given as two directories (library API): each pattern is read relative to the directory that holds
+    the file, so the lines that remain are the union of what the two single-directory code bases keep."""
+    from codebasin import CodeBase, finder
+    acc = ctx.acc
+    tops = sorted({r.split("/")[0] for r in inroot if "/" in r})
+    if len(tops) < 2:
+        return
+    d1, d2 = tops[0], tops[-1]
+    dirs = [os.path.join(realroot, d1), os.path.join(realroot, d2)]
+    sub1 = sorted({r.split("/")[1] for r in inroot if r.startswith(d1 + "/") and r.count("/") >= 1})
+    pats_list = [["/" + sub1[0]] if sub1 else ["*.h"], ["sub/"], ["/sub/"], ["*.h", "!/x.h"], [d1 + "/"], ["/" + d1 + "/" + (sub1[0] if sub1 else "x")]]
+    for pats in pats_list:
+        problems = []
+        try:
+            members = []
+            for d in dirs:
+                rels = [os.path.relpath(os.path.join(realroot, r), d) for r in inroot if r.startswith(os.path.basename(d) + "/")]
+                ign = git.ignored(d, pats, rels)
+                members += [os.path.relpath(os.path.join(d, r), realroot) for r in rels if not ign.get(r, False)]
+            cb = CodeBase(*dirs, exclude_patterns=pats)
+            state = finder.find(realroot, cb, conf)
+            acc.hook("find")
+            sm = setmap_of(state, cb)
+            want = project_setmap(attr0, members)
+            if want != sm:
+                problems.append({"kind": "two-directory code base: setmap is not the projection on the members of both directories",
+                                 "directories": [d1, d2], "expected": {",".join(sorted(k)): v for k, v in want.items()},
+                                 "observed": {",".join(sorted(k)): v for k, v in sm.items()}})
+            listed = {os.path.relpath(os.path.realpath(p), realroot) for p in cb}
+            if listed != set(members):
+                problems.append({"kind": "two-directory code base: members", "expected": sorted(members), "observed": sorted(listed)})
+        except Exception as e:
+            problems.append({"kind": "exception-two-directory-code-base", "observed": f"{type(e).__name__}: {e}"})
+        cells = {"code-base-of-two-directories"}
+        if problems:
+            acc.violated({"input": {"files": case["files"], "tus": case["tus"], "patterns": pats, "directories": [d1, d2]},
+                          "witness": {"patterns": pats, "directories": [d1, d2], "problems": problems[:4]}}, cells=cells, cls="multi")
+        else:
+            acc.held(cells=cells, cls="multi")
 
 
 def cli_check(ctx, git, case, base, rng, inroot, attr0):
@@ -264,7 +312,8 @@ def run_shard(ctx):
     for i in range(b["cases"]):
         small = rng.random() < 0.4
         case = forest.gen(rng, n_tus=rng.randint(1, 2) if small else rng.randint(1, 4), outside=rng.random() < 0.5,
-                          findable=True, subdir=not small)
+                          findable=True, subdir=not small, outside_tu=(i % 3 == 1))
+        case["via_db"] = i % 2 == 1
         for tu in case["tus"]:
             tu["search"] = [["I", d] for _, d in tu["search"]]
         if not small:
